@@ -67,14 +67,15 @@ FULL = os.environ.get('C20_FULL') == '1'
 ATTRS = ('a', 'f', 'x', 'v', 'n', 'g')
 CHECKED = ('a', 'n', 'g')            # attributes for which optimistic checks are enabled (reference statement)
 LOADED_G, NEW_G = 7, 8
+LO, HI = -2 ** 31, 2 ** 31 - 1
 ENVS = {}
 LAST = {}
 NPATH = [0]
 
 B3 = Tuple[bool, bool, bool]
 B6 = Tuple[bool, bool, bool, bool, bool, bool]
-LT = Tuple[int, float, int, int, bool, int, bool]            # a, f, x, v, n is NULL, n, g is NULL
-NT = Tuple[int, float, int, int, bool, int, bool]            # a, f, x, v, n := None, n, g := None
+LT = Tuple[int, int, int, bool, int, bool]                   # loaded row: a, x, v, n is NULL, n, g is NULL
+NT = Tuple[int, int, int, bool, int, bool]                   # assigned values: a, x, v, n := None, n, g := None
 CT = Tuple[bool, int, int, int, bool, int, bool, int]        # row exists, a, x, v, n is NULL, n, g is NULL, g
 
 
@@ -203,6 +204,9 @@ def setup():
     if ENVS: return
     from pony.orm import core
     core.time = lambda: 0.0
+    # pony interns database values through a dict (pony.utils.deduplicate, with a bare `except:`): a pure identity
+    # optimisation, but the dict lookup would realise every symbolic value -> replaced by the identity function
+    core.deduplicate = lambda value, deduplication_cache: value
     ENVS['sqlite'] = _make('sqlite')
     ENVS['postgres'] = _make('postgres')
 
@@ -288,16 +292,15 @@ def _same(x, y):
 
 
 # ---------------------------------------------------------------------------------------------- scenario
-def _core(R, W, L, N, C, optimistic=True, for_update=False, provider='sqlite', full=False):
+def _core(R, W, L, N, C, optimistic=True, for_update=False, provider='sqlite', lf=1.5, nf=2.5):
     from pony.orm import db_session
     from pony.orm.core import OptimisticCheckError, UnrepeatableReadError
     e = ENVS[provider]
     _reset(e)
     E, G, con, col = e.E, e.G, e.con, e.col
-    la, lf, lx, lv, ln_null, ln, lg_null = L
-    na, nf, nx, nv, nn_null, nn, ng_null = N
+    la, lx, lv, ln_null, ln, lg_null = L
+    na, nx, nv, nn_null, nn, ng_null = N
     exists, ca, cx, cv, cn_null, cn, cg_null, cg = C
-    if not (full or FULL): lf, nf = 1.5, 2.5          # quick tier, main harnesses: float values fixed (they feed no decision)
     loaded = {'id': 1, 'a': la, 'f': lf, 'x': lx, 'v': lv, 'n': None if ln_null else ln, 'g': None if lg_null else LOADED_G}
     # current row as (is NULL, value) per column that may legitimately appear in an equality term
     cur = {'id': (False, 1), 'a': (False, ca), 'x': (False, cx), 'v': (False, cv), 'n': (cn_null, cn), 'g': (cg_null, cg)}
@@ -310,9 +313,8 @@ def _core(R, W, L, N, C, optimistic=True, for_update=False, provider='sqlite', f
             st['loads'] += 1
             if st['loads'] == 1:
                 return [tuple(loaded[c] for c in cols)], [(c,) for c in cols], -1
-            # find_updated_attributes() after a failed check; its result only feeds the error message
-            now = dict(loaded, a=ca, x=cx, v=cv)
-            return [tuple(now[c] for c in cols)], [(c,) for c in cols], -1
+            # find_updated_attributes() after a failed check; its result only feeds the error message ("was deleted")
+            return [], [(c,) for c in cols], -1
         if table == G._table_:
             pk = args[0] if not isinstance(args, dict) else list(args.values())[0]
             return [(pk,)], [('id',)], -1
@@ -346,18 +348,21 @@ def _core(R, W, L, N, C, optimistic=True, for_update=False, provider='sqlite', f
         with db_session(optimistic=optimistic):
             g_new = G[NEW_G] if W[5] and not ng_null else None       # fetched first: a query auto-flushes pending changes
             obj = E.get_for_update(id=1) if for_update else E.get(id=1)
-            for i, name in enumerate(ATTRS):
-                if R[i]: getattr(obj, name)
-            for i, name in enumerate(ATTRS):
-                if W[i]:
-                    if name == 'a': val = na
-                    elif name == 'f': val = nf
-                    elif name == 'x': val = nx
-                    elif name == 'v': val = nv
-                    elif name == 'n': val = None if nn_null else nn
-                    else: val = g_new
-                    newval[name] = val
-                    setattr(obj, name, val)
+            # explicit attribute syntax: CrossHair runs the getattr()/setattr() builtins outside its tracer
+            if R[0]: obj.a
+            if R[1]: obj.f
+            if R[2]: obj.x
+            if R[3]: obj.v
+            if R[4]: obj.n
+            if R[5]: obj.g
+            if W[0]: newval['a'] = na; obj.a = na
+            if W[1]: newval['f'] = nf; obj.f = nf
+            if W[2]: newval['x'] = nx; obj.x = nx
+            if W[3]: newval['v'] = nv; obj.v = nv
+            if W[4]:
+                newval['n'] = val = None if nn_null else nn
+                obj.n = val
+            if W[5]: newval['g'] = g_new; obj.g = g_new
             masks = (obj._rbits_, obj._wbits_, obj._status_)
     except Exception as ex:
         exc = ex
@@ -442,11 +447,14 @@ def _core(R, W, L, N, C, optimistic=True, for_update=False, provider='sqlite', f
 
 
 def _pre(R, W, L, N, C, full=False):
-    """Floats finite; in the quick tier the main harnesses run with the design's row shape (v not read, n loaded NULL, g loaded
-    non-NULL, non-NULL assignments, fixed float values); integers are unbounded (z3 Int)."""
-    if full: return math.isfinite(L[1]) and math.isfinite(N[1])
-    if FULL: return (not L[6]) and (not N[4]) and (not N[6]) and math.isfinite(L[1]) and math.isfinite(N[1])
-    return (not R[3]) and L[4] and (not L[6]) and (not N[4]) and (not N[6])
+    """Loaded / assigned ints inside the 32-bit range of their columns (IntConverter.validate); the current row's ints are
+    unbounded.  Main harnesses, quick tier: the design's row shape (v not read, n loaded NULL, g loaded non-NULL, non-NULL
+    assignments); C20_FULL=1 (thorough) frees `v is read` and `n loaded NULL or not`."""
+    for v in (L[0], L[1], L[2], L[4], N[0], N[1], N[2], N[4]):
+        if not (LO <= v <= HI): return False
+    if full: return True
+    if FULL: return (not L[5]) and (not N[3]) and (not N[5])
+    return (not R[3]) and L[3] and (not L[5]) and (not N[3]) and (not N[5])
 
 
 B2 = Tuple[bool, bool]
@@ -590,39 +598,48 @@ def upd_nulls(R: B6, W: B6, L: LT, N: NT, C: CT) -> bool:
     pre: _pre(R, W, L, N, C, True) and _only(R, 'ng') and _only(W, 'ng')
     post: _
     """
-    return _core(R, W, L, N, C, full=True)
+    return _core(R, W, L, N, C)
 
 
 def upd_volatile(R: B6, W: B6, L: LT, N: NT, C: CT) -> bool:
     """
-    pre: _pre(R, W, L, N, C, True) and _only(R, 'va') and _only(W, 'va') and L[4] and not L[6]
+    pre: _pre(R, W, L, N, C, True) and _only(R, 'va') and _only(W, 'va') and L[3] and not L[5]
     post: _
     """
-    return _core(R, W, L, N, C, full=True)
+    return _core(R, W, L, N, C)
+
+
+def upd_float(R: B6, W: B6, L: LT, N: NT, C: CT, lf: float, nf: float) -> bool:
+    """
+    pre: _pre(R, W, L, N, C, True) and _only(R, 'fa') and _only(W, 'fa') and L[3] and not L[5]
+    pre: math.isfinite(lf) and math.isfinite(nf)
+    post: _
+    """
+    return _core(R, W, L, N, C, lf=lf, nf=nf)
 
 
 def upd_for_update(R: B6, W: B6, L: LT, N: NT, C: CT, optimistic: bool) -> bool:
     """
-    pre: _pre(R, W, L, N, C, True) and _only(R, 'ang') and _only(W, 'axg') and L[4] and not L[6] and not N[6]
+    pre: _pre(R, W, L, N, C, True) and _only(R, 'ang') and _only(W, 'axg') and L[3] and not L[5] and not N[5]
     post: _
     """
-    return _core(R, W, L, N, C, optimistic=optimistic, for_update=True, full=True)
+    return _core(R, W, L, N, C, optimistic=optimistic, for_update=True)
 
 
 def upd_pessimistic(R: B6, W: B6, L: LT, N: NT, C: CT) -> bool:
     """
-    pre: _pre(R, W, L, N, C, True) and _only(R, 'ang') and _only(W, 'axg') and L[4] and not L[6] and not N[6]
+    pre: _pre(R, W, L, N, C, True) and _only(R, 'ang') and _only(W, 'axg') and L[3] and not L[5] and not N[5]
     post: _
     """
-    return _core(R, W, L, N, C, optimistic=False, full=True)
+    return _core(R, W, L, N, C, optimistic=False)
 
 
 def upd_pg(R: B6, W: B6, L: LT, N: NT, C: CT) -> bool:
     """
-    pre: _pre(R, W, L, N, C, True) and _only(R, 'ang') and _only(W, 'ang') and not N[4] and not N[6] and not L[6]
+    pre: _pre(R, W, L, N, C, True) and _only(R, 'ang') and _only(W, 'ang') and not N[3] and not N[5] and not L[5]
     post: _
     """
-    return _core(R, W, L, N, C, provider='postgres', full=True)
+    return _core(R, W, L, N, C, provider='postgres')
 
 
 # ---------------------------------------------------------------------------------------------- K3: tracking step
@@ -662,11 +679,11 @@ def track_step(rbits0: int, wbits0: int, i: int, kind: int, val: int) -> bool:
                 cache.modified = True
             written = (wbits0 & nvbit) != 0 if nvbit else False
             if kind == 0:
-                getattr(obj, name)
+                attr.__get__(obj)                     # (the getattr() builtin would run outside CrossHair's tracer)
                 exp_r = rbits0 if written else rbits0 | nvbit
                 exp_w = wbits0
             elif kind == 1:
-                setattr(obj, name, (g_new if name == 'g' else float(val) if name == 'f' else val))
+                attr.__set__(obj, g_new if name == 'g' else float(val) if name == 'f' else val)
                 exp_r, exp_w = rbits0, wbits0 | bit
             else:
                 E._set_rbits([obj], [attr])          # what _fetch_objects does for the attributes a query used
@@ -684,11 +701,12 @@ def track_step(rbits0: int, wbits0: int, i: int, kind: int, val: int) -> bool:
 
 
 MAIN = ['upd_w%02d' % k for k in range(16)]
-HARNESSES = MAIN + ['upd_nulls', 'upd_volatile', 'upd_for_update', 'upd_pessimistic', 'upd_pg', 'track_step']
+HARNESSES = MAIN + ['upd_nulls', 'upd_volatile', 'upd_float', 'upd_for_update', 'upd_pessimistic', 'upd_pg', 'track_step']
 
 
 def explain(fn, **kw):
     setup()
     r = globals()[fn](**kw)
     return r, list(LAST.get('why', ())), LAST.get('log')
+
 
